@@ -213,6 +213,8 @@ class extract_visitor(NodeVisitor):
             self.visit(df)
 
         if not PY2:
+            for df in node.args.kw_defaults:
+                df and self.visit(df)
             for a in node.args.args:
                 a.annotation and self.visit(a.annotation)
             for kw in node.args.kwonlyargs:
@@ -237,6 +239,8 @@ class extract_visitor(NodeVisitor):
             self.visit(d)
 
         if not PY2:
+            for d in node.args.kw_defaults:
+                d and self.visit(d)
             for a in node.args.args:
                 a.annotation and self.visit(a.annotation)
             for kw in node.args.kwonlyargs:
@@ -251,6 +255,7 @@ class extract_visitor(NodeVisitor):
         cur = self.flow
         self.visit_in_flow(node.decorator_list, cur)
         self.visit_in_flow(node.bases, cur)
+        self.visit_in_flow(getattr(node, 'keywords', None), cur)
         scope = ClassScope(cur.scope, node, top=self.top)
         cur.add_name(scope)  # type: ignore[arg-type]  # TODO
         self.visit_in_flow(node.body, scope.flow)
